@@ -1,5 +1,6 @@
 /-
-C01 — image geometry operations keep landmarks and mask registered to pixel content.  Property theorems.
+C01 — image geometry operations keep landmarks and mask registered to pixel content.  Property theorems, part 1
+(part 2, which imports this file: `Props/C01.lean`).
 
 Reading of the property in the model (Core/C01Warp.lean):
   * "sampling the returned image at a returned landmark gives the value the original image had at the
@@ -623,6 +624,18 @@ theorem warp_plan_invertible {h w : Nat} {T : Aff2} {m : Mode} {p : Plan2} (hp :
     subst this
     exact hT
 
+/-- a pyramid step is `rescale(1/downscale, round='ceil')` with the order fixed to 1 -/
+theorem pyramid_step_is_rescale {h w : Nat} {ds : Rat} {p : Plan2} (hp : pyramidStep2 h w ds = .ok p) :
+    ∃ q, rescalePlan2 h w (1 / ds) (1 / ds) .ceil = .ok q ∧ p = q.withOrder .linear := by
+  unfold pyramidStep2 at hp
+  split at hp
+  · cases hp
+  · cases hq : rescalePlan2 h w (1 / ds) (1 / ds) .ceil with
+    | error e => rw [hq] at hp; cases hp
+    | ok q =>
+      rw [hq] at hp
+      exact ⟨q, rfl, (Except.ok_inj' hp).symm⟩
+
 /-- pyramid level `k + 1` is one `rescale(1/downscale)` of level `k`; its landmarks map back onto the
 landmarks of level `k` under the transform of that step -/
 theorem pyramid_step_registered (ds : Rat) (o : Interp) (k : Nat) (s : Img2 × Img2 × List V2)
@@ -631,10 +644,8 @@ theorem pyramid_step_registered (ds : Rat) (o : Interp) (k : Nat) (s : Img2 × I
     pyramid2 ds o (k + 1) s = .ok (p.run o im, p.runMask mk, lms.map p.landmark) ∧
     p.T.det ≠ 0 ∧ ∀ l ∈ lms, p.T.apply (p.landmark l) = l := by
   have hdet : p.T.det ≠ 0 := by
-    unfold pyramidStep2 at hp
-    split at hp
-    · cases hp
-    · exact rescale_plan_invertible hp
+    obtain ⟨q, hq, rfl⟩ := pyramid_step_is_rescale hp
+    exact (rescale_plan_invertible hq : q.T.det ≠ 0)
   refine ⟨?_, hdet, fun l _ => Aff2.apply_inv_apply hdet l⟩
   simp only [pyramid2, hk, hp]
 
@@ -663,10 +674,8 @@ theorem plan2_T_invertible (h w : Nat) (p : Plan2)
   · exact about_plan_invertible h1
   · exact mirror_plan_invertible h1
   · exact warp_plan_invertible h1
-  · unfold pyramidStep2 at h1
-    split at h1
-    · cases h1
-    · exact rescale_plan_invertible h1
+  · obtain ⟨q, hq, rfl⟩ := pyramid_step_is_rescale h1
+    exact (rescale_plan_invertible hq : q.T.det ≠ 0)
 
 /-! ### 3-D operations -/
 
